@@ -237,6 +237,12 @@ def run_case(case, rec):
         rs.X[2] = 0.321
         rec.check(rs[2].X == 0.321, 'set-item-X', f'set-to-item/{cls.__name__}', 'set.X[i] = v not visible in item.X')
         rs.X[1] = msn[1][1]; rs.X[2] = msn[2][1]
+        # an item of a set is a reaction: copying it gives an independent Reaction acting like the item
+        itc = guarded('set-copy', lambda: rs[0].copy())
+        if itc is not None:
+            rec.check(not (containers(itc) & containers(rs)) and itc.X == rs.X[0], 'set-copy', f'item-copy/{cls.__name__}', 'copy() of a reaction-set item shares containers with the set or has another X')
+            itc.X = 0.0777
+            rec.check(rs.X[0] != 0.0777 or msn[0][1] == 0.0777, 'set-copy', f'item-copy/X-shared/{cls.__name__}', 'changing X of an item copy changed the set')
         ssn = snap(rs)
         cp = guarded('set-copy', lambda: rs.copy())
         if cp is not None:
